@@ -120,7 +120,15 @@ impl Registry {
                             prefix = other;
                         }
                     }
-                    return Some(format!("{}{}", prefix, canonicalized));
+                    let expanded = format!("{}{}", prefix, canonicalized);
+                    // The canonical form of the rest may itself carry a
+                    // prefix (`Calorie` -> `kilocal_IT`); a doubly
+                    // prefixed name would not resolve, so keep the rest
+                    // as written in that case.
+                    if self.lookup(&expanded).is_some() {
+                        return Some(expanded);
+                    }
+                    return Some(format!("{}{}", prefix, name));
                 }
             }
         }
